@@ -116,7 +116,7 @@ Definition data_ok (rw : row) (d : list evalue) : Prop :=
 Definition emb_bytes (self : pv) (r : Frame.res bytes) : PyLite.res (pv * option pv) :=
   match r with
   | Frame.Ok b => PyLite.Ok (PBytes b, Some self)
-  | Frame.Raise w => Exc w
+  | Frame.Raise w => ExcS w (self_st self)
   | Frame.Err _ => Unsupported ""
   end.
 
@@ -458,7 +458,7 @@ Definition emb_opt (self : pv) (r : Frame.res (option bytes)) : PyLite.res (pv *
   match r with
   | Frame.Ok None => PyLite.Ok (PNone, Some self)
   | Frame.Ok (Some b) => PyLite.Ok (PBytes b, Some self)
-  | Frame.Raise w => Exc w
+  | Frame.Raise w => ExcS w (self_st self)
   | Frame.Err _ => Unsupported ""
   end.
 #[local] Hint Unfold emb_opt Request.spack : stream_model.
@@ -481,7 +481,7 @@ Proof. pystart. unfold Frame.frame_create. pyrun. Qed.
 Lemma iter_then {X Y Z'} (A : PyLite.res X) (B : X -> PyLite.res Y) (K : Y -> PyLite.res Z') R :
   (do e1 <- A; do o <- B e1; PyLite.Ok o) = R ->
   (do e1 <- A; do o <- B e1; K o) = (do o <- R; K o).
-Proof. intros <-. destruct A as [a| | |]; cbn [bind]; try reflexivity. destruct (B a); reflexivity. Qed.
+Proof. intros <-. destruct A as [a| | | |]; cbn [bind]; try reflexivity. destruct (B a); reflexivity. Qed.
 
 Lemma dsfmt_get_no_err t e : Stream.dsfmt_get t [] <> Frame.Err e.
 Proof.
@@ -506,7 +506,7 @@ Lemma dsfmt_get_func n dtype :
   call_func program (S (S (S n))) Src_iparse.fn_dsfmt_get [PInt dtype; PNone] [] =
   match Stream.dsfmt_get dtype [] with
   | Frame.Ok (rw, _) => PyLite.Ok (row_obj rw, Some (PInt dtype))
-  | Frame.Raise w => Exc w
+  | Frame.Raise w => ExcS w (self_st (PInt dtype))
   | Frame.Err _ => Unsupported ""
   end.
 Proof.
@@ -524,7 +524,7 @@ Section Enc.
     call_func program (S (S (S n))) Src_iparse.fn_dsfmt_get [PInt dtype; PNone] [] =
     match Stream.dsfmt_get dtype [] with
     | Frame.Ok (rw, _) => PyLite.Ok (row_obj rw, Some (PInt dtype))
-    | Frame.Raise w => Exc w
+    | Frame.Raise w => ExcS w (self_st (PInt dtype))
     | Frame.Err _ => Unsupported ""
     end.
   #[local] Hint Resolve Hms Hds : pyspec.
@@ -547,7 +547,7 @@ Section Enc.
 
   Lemma iter_skip lf sc s b c v :
     Stream.is_nil (e_data s) = true -> Stream.is_nil (e_meta s) = true ->
-    (do e1 <- assign program cf (env_of cbv dv (b, c, v)) loop_t (samp_obj sc s);
+    (do e1 <- attach (env_of cbv dv (b, c, v)) (assign program cf (env_of cbv dv (b, c, v)) loop_t (samp_obj sc s));
      do o <- exec_block program cf lf e1 loop_b; PyLite.Ok o) =
     PyLite.Ok (OCont (env_of cbv dv (b, c, Some (samp_obj sc s, match v with Some (_, dm) => dm | None => None end)))).
   Proof.
@@ -557,8 +557,9 @@ Section Enc.
 
   Lemma iter_raise lf sc s b c v w :
     skipped s = false -> Stream.dsfmt_get (e_type s) [] = Frame.Raise w ->
-    (do e1 <- assign program cf (env_of cbv dv (b, c, v)) loop_t (samp_obj sc s);
-     do o <- exec_block program cf lf e1 loop_b; PyLite.Ok o) = Exc w.
+    (do e1 <- attach (env_of cbv dv (b, c, v)) (assign program cf (env_of cbv dv (b, c, v)) loop_t (samp_obj sc s));
+     do o <- exec_block program cf lf e1 loop_b; PyLite.Ok o) =
+    ExcS w (env_of cbv dv (b, c + 1, Some (samp_obj sc s, match v with Some (_, dm) => dm | None => None end))).
   Proof.
     intros Hs Eds. unfold cf, loop_t, loop_b. cbn [first_for f_body ParseRecv__stream_data_encode].
     unfold skipped in Hs.
@@ -569,55 +570,64 @@ Section Enc.
   Lemma iter_main lf s b c v rw u :
     skipped s = false -> Stream.dsfmt_get (e_type s) [] = Frame.Ok (rw, u) ->
     0 <= e_vdim s -> 0 <= e_mlen s -> data_ok rw (e_data s) ->
-    (do e1 <- assign program cf (env_of cbv dv (b, c, v)) loop_t (samp_obj (r_scale rw) s);
+    (do e1 <- attach (env_of cbv dv (b, c, v))
+                     (assign program cf (env_of cbv dv (b, c, v)) loop_t (samp_obj (r_scale rw) s));
      do o <- exec_block program cf lf e1 loop_b; PyLite.Ok o) =
+    let v' := Some (samp_obj (r_scale rw) s, Some (row_obj rw, PStr (Stream.msfmt_get (e_mlen s)))) in
     match Stream.stream_bytes_get rw false s with
     | Frame.Ok bb =>
         match meta_bytes s with
-        | Frame.Ok m =>
-            PyLite.Ok (ONorm (env_of cbv dv (((b ++ bb) ++ m)%list, c + 1,
-                         Some (samp_obj (r_scale rw) s, Some (row_obj rw, PStr (Stream.msfmt_get (e_mlen s)))))))
-        | Frame.Raise w => Exc w
+        | Frame.Ok m => PyLite.Ok (ONorm (env_of cbv dv (((b ++ bb) ++ m)%list, c + 1, v')))
+        | Frame.Raise w => ExcS w (env_of cbv dv ((b ++ bb)%list, c + 1, v'))   (* struct.pack of the metadata *)
         | Frame.Err _ => Unsupported ""
         end
-    | Frame.Raise w => Exc w
+    | Frame.Raise w => ExcS w (env_of cbv dv (b, c + 1, v'))                    (* _stream_bytes_get *)
     | Frame.Err _ => Unsupported ""
     end.
   Proof.
-    intros Hs Eds Hv Hl Hdo. destruct (dsfmt_get_row _ _ _ Eds) as [-> Hrw].
+    intros Hs Eds Hv Hl Hdo. destruct (dsfmt_get_row _ _ _ Eds) as [-> Hrw]. cbv zeta.
     unfold cf, loop_t, loop_b. cbn [first_for f_body ParseRecv__stream_data_encode].
     unfold skipped in Hs. unfold meta_bytes.
     destruct (Stream.is_nil (e_data s)) eqn:Hd; destruct (Stream.is_nil (e_meta s)) eqn:Hm; try discriminate Hs;
       destruct v as [[sp [[d m]|]]|]; cbn [env_of app]; pyrun.
   Qed.
 
+  (** when the model raises, the loop raises in the environment of some loop state *)
   Lemma loop_spec lf l :
-    Forall sample_ok l -> forall b c v,
+    Forall sample_ok l -> forall b c v, exists st,
     for_loop program cf lf loop_t loop_b (map samp_pv l) (env_of cbv dv (b, c, v)) =
     match Stream.encode_samples [] l with
     | Frame.Ok (bs, k) => PyLite.Ok (ONorm (env_of cbv dv ((b ++ bs)%list, c + k, fold_left step_vars l v)))
-    | Frame.Raise w => Exc w
+    | Frame.Raise w => ExcS w (env_of cbv dv st)
     | Frame.Err _ => Unsupported ""
     end.
   Proof.
     induction 1 as [|s r Hs _ IH]; intros b c v.
-    - rewrite for_loop_nil. change (Stream.encode_samples [] []) with (@Frame.Ok (bytes * Z) ([], 0)).
+    - exists (b, c, v).
+      rewrite for_loop_nil. change (Stream.encode_samples [] []) with (@Frame.Ok (bytes * Z) ([], 0)).
       cbn beta iota. rewrite app_nil_r, Z.add_0_r. reflexivity.
     - cbn [map fold_left]. rewrite for_loop_cons, encode_samples_cons. unfold samp_pv at 1. unfold step_vars at 2.
       destruct (skipped s) eqn:Esk.
       + apply andb_prop in Esk. destruct Esk as [E1 E2].
-        rewrite (iter_then _ _ _ _ (iter_skip lf _ s b c v E1 E2)). cbn [bind loop_next]. apply IH.
+        edestruct IH as [st E]. exists st.
+        rewrite (iter_then _ _ _ _ (iter_skip lf _ s b c v E1 E2)). cbn [bind loop_next]. apply E.
       + destruct Hs as [Hs|Hs]; [congruence|]. unfold samp_pv, row_of.
         destruct (Stream.dsfmt_get (e_type s) []) as [[rw u]|e|w] eqn:Eds.
         * destruct Hs as (Hv & Hl & Hd).
-          rewrite (iter_then _ _ _ _ (iter_main lf s b c v rw u Esk Eds Hv Hl Hd)).
+          pose proof (iter_main lf s b c v rw u Esk Eds Hv Hl Hd) as HI. cbv zeta in HI.
           cbn [Request.bind fst]. unfold enc_one.
-          destruct (Stream.stream_bytes_get rw false s) as [bb| |]; cbn [Request.bind bind]; try reflexivity.
-          destruct (meta_bytes s) as [m| |]; cbn [Request.bind bind loop_next]; try reflexivity.
-          rewrite IH. destruct (Stream.encode_samples [] r) as [[bs k]| |]; cbn [Request.bind fst snd]; try reflexivity.
+          destruct (Stream.stream_bytes_get rw false s) as [bb| |]; cbn [Request.bind].
+          2:{ exists (b, c, v). rewrite (iter_then _ _ _ _ HI). reflexivity. }
+          2:{ eexists. rewrite (iter_then _ _ _ _ HI). reflexivity. }
+          destruct (meta_bytes s) as [m| |]; cbn [Request.bind].
+          2:{ exists (b, c, v). rewrite (iter_then _ _ _ _ HI). reflexivity. }
+          2:{ eexists. rewrite (iter_then _ _ _ _ HI). reflexivity. }
+          edestruct IH as [st E]. exists st.
+          rewrite (iter_then _ _ _ _ HI). cbn [bind loop_next].
+          rewrite E. destruct (Stream.encode_samples [] r) as [[bs k]| |]; cbn [Request.bind fst snd]; try reflexivity.
           rewrite <- !app_assoc, Z.add_assoc. reflexivity.
         * exfalso. exact (dsfmt_get_no_err _ _ Eds).
-        * rewrite (iter_then _ _ _ _ (iter_raise lf _ s b c v w Esk Eds)). reflexivity.
+        * eexists. rewrite (iter_then _ _ _ _ (iter_raise lf _ s b c v w Esk Eds)). reflexivity.
   Qed.
 
   Lemma data_encode_func l :
@@ -627,11 +637,16 @@ Section Enc.
   Proof.
     intros Hdv Hl. pystart. unfold Stream.stream_data_encode. pysteps.
     all: try match goal with
-         | |- context [for_loop _ _ _ _ _ _ ?e] =>
+         | |- context [for_loop ?P0 ?c0 ?lf ?t0 ?b0 ?l0 ?e] =>
              match e with
-             | context [("_bytes", PBytes ?B)] => change e with (env_of cbv dv (B, 0, None))
-             end;
-             fold loop_t loop_b cf; rewrite (loop_spec _ l Hl)
+             | context [("_bytes", PBytes ?B)] =>
+                 change (for_loop P0 c0 lf t0 b0 l0 e)
+                   with (for_loop program cf lf loop_t loop_b (map samp_pv l) (env_of cbv dv (B, 0, None)));
+                 let Hst := fresh "Hst" in
+                 (* the loop state is left to unification: the pair in the goal and the one
+                    in [loop_spec] differ in their (convertible) type arguments *)
+                 edestruct (loop_spec lf l Hl) as [[[? ?] ?] Hst]; rewrite Hst; clear Hst
+             end
          end.
     all: pyrun.
   Qed.
